@@ -182,6 +182,7 @@ type pathCtx struct {
 	counters  map[string]int
 	fifos     map[string]*fifoState
 	race      *raceState
+	sinks     map[string]*sinkState
 }
 
 func NewExplorer(cfg Config, ld *Loaded) *Explorer {
